@@ -878,7 +878,7 @@ TARGETS = [
              types={"intervals": "list ((Z * Z) * (Z * Z))"}, lists=["intervals"], strip_div=60.0),
     ]),
     dict(out="WorkingHoursPy", src="scriptplan/core/working_hours.py", cls="WorkingHours", imports=["WorkingHoursCy"], funcs=[
-        dict(py="onShift", coq="WorkingHours_onShift_local", ret="bool", variants=True,
+        dict(py="containsTime", coq="WorkingHours_onShift_local", ret="bool", variants=True,
              start_at="weekday = dt.weekday()", params=[("dt", "Z")], dicts=["self._hours"],
              self_params=["self_hours"], self_types={"self_hours": HOURS}),
         dict(py="get_daily_hours", coq="WorkingHours_get_daily_minutes", ret="Z", variants=True, strip_div=60.0,
